@@ -178,8 +178,10 @@ func generate(c *core.Ctx, cfgFile, rowsFile string, parts [][2]string) []*scena
 	var mu sync.Mutex
 	by := map[string]*scenario{}
 	var order []string
-	core.ParallelFor(len(parts), 16, func(i int) {
-		env := []string{"C10_CAUTH=" + parts[i][0], "C10_SAUTH=" + parts[i][1], "C10_ROWS=" + rowsFile}
+	core.ParallelFor(len(parts), 8, func(i int) {
+		// many TLC processes run side by side: keep each JVM small (its default heap is 1/4 of the RAM)
+		env := []string{"C10_CAUTH=" + parts[i][0], "C10_SAUTH=" + parts[i][1], "C10_ROWS=" + rowsFile,
+			"JAVA_TOOL_OPTIONS=-Xmx2g"}
 		raws := kit.Generate(c, "Gen_Handshake.tla", cfgFile, tlc.Options{Env: env, Timeout: 40 * time.Minute})
 		for _, r := range raws {
 			var w struct {
@@ -478,7 +480,8 @@ func run(c *core.Ctx) {
 		go func(lv string) {
 			defer wg.Done()
 			kit.ModelCheck(c, "Gen_Handshake.tla", mcCfg, tlc.Options{Workers: 4, Timeout: 40 * time.Minute,
-				Env: []string{"C10_CAUTH=" + lv, "C10_SAUTH=*", "C10_ROWS=" + filepath.Join(c.Tmp, "c10-rows.ndjson")}})
+				Env: []string{"C10_CAUTH=" + lv, "C10_SAUTH=*", "C10_ROWS=" + filepath.Join(c.Tmp, "c10-rows.ndjson"),
+					"JAVA_TOOL_OPTIONS=-Xmx4g"}})
 		}(lv)
 	}
 	defer wg.Wait()
@@ -515,7 +518,8 @@ func run(c *core.Ctx) {
 		}
 		scs = generate(c, "Gen_C10_rows.cfg", rowsFile, parts)
 	}
-	if c.IsBroken() {
+	if len(scs) == 0 {
+		c.Broken("no configuration was generated")
 		return
 	}
 	c.Set("configurations", len(scs))
